@@ -117,9 +117,44 @@ def compare_mirror(res, t, A, B, spA):
                         worst["finite:" + name + suf] = 1.0
                     continue
                 worst[name + suf] = max(worst.get(name + suf, 0), rel(a, b))
+            # the same fields at the y-faces inside the region: face j+1 <-> face ny-1-j of the mirror image
+            if name + "_ylow" in va and name + "_ylow" in vb:
+                a = va[name + "_ylow"][sa[0], sa[1]][:, 1:]
+                b = vb[name + "_ylow"][sb[0], sb[1]][:, ::-1][:, :-1]
+                if name in ABS:
+                    a, b = np.abs(a), np.abs(b)
+                if a.size and np.isfinite(a).all() and np.isfinite(b).all():
+                    worst[name + "_ylow"] = max(worst.get(name + "_ylow", 0), rel(a, b))
+    # the y-faces on region joins: the face between region r (below) and q (above) is stored as q's first face; in the mirror image the same
+    # face lies between mu(q) (below) and mu(r) (above) and is stored as mu(r)'s first face
+    RA, RB = A["extras"].get("regions"), B["extras"].get("regions")
+    if RA and RB:
+        byname_b = {x["name"]: x for x in RB.values()}
+        for qa in RA.values():
+            lo = qa["connections"].get("lower")
+            if lo is None or qa["name"] not in ra:
+                continue
+            r_name = RA[lo]["name"]
+            tgt = mu_name(r_name)
+            if tgt not in rb:
+                continue
+            sa, sb = ra[qa["name"]]["slice"], rb[tgt]["slice"]
+            # (only the magnitudes that do not vanish at an X-point; each side computes the position of such a face separately, shifted by the
+            # xpoint_offset fudge: 2e-4 relative on the unchanged tree, 2e-3 allowed; orthogonal grids only — the angle beta differs there)
+            if spA["options"].get("orthogonal", True) is False:
+                break
+            for name in ("Bpxy", "Bxy", "g11", "g33", "g_22", "g22", "J", "hy"):
+                k = name + "_ylow"
+                if k not in va or k not in vb:
+                    continue
+                a, b = va[k][sa[0], sa[1]][:, 0], vb[k][sb[0], sb[1]][:, 0]
+                if a.shape != b.shape or not (np.isfinite(a).all() and np.isfinite(b).all()):
+                    continue
+                a, b = np.abs(a), np.abs(b)
+                worst[name + "_ylow@join"] = max(worst.get(name + "_ylow@join", 0), rel(a, b))
     res.extra.setdefault("mirror_worst", {})[t] = {k: v for k, v in sorted(worst.items(), key=lambda kv: -kv[1])[:6]}
     bad_pos = {k: v for k, v in worst.items() if (k.startswith("pos") or k == "corners") and v > 2e-6 or k.startswith("branch-cut") and v > 0.1}
-    bad_f = {k: v for k, v in worst.items() if not (k.startswith("pos") or k == "corners" or k.startswith("branch-cut")) and v > 2e-4}
+    bad_f = {k: v for k, v in worst.items() if not (k.startswith("pos") or k == "corners" or k.startswith("branch-cut")) and v > (2e-3 if k.endswith("@join") else 2e-4)}
     if bad_pos:
         k = max(bad_pos, key=bad_pos.get)
         res.violation("mirror-positions:" + t, "%s: the grid of the mirror image is not the reflected grid with y reversed: %s differ by %.2e m" % (t, k, bad_pos[k]), {"spec": spA, "worst": bad_pos})
@@ -200,7 +235,7 @@ def run(res, tier):
                 "psi -> -psi, fpol -> -fpol given directly and through reverse_current / reverse_Bt, and psi_divide_twopi vs psi/2pi given directly: positions "
                 "identical to 1e-9, listed fields scaled by the expected factor, all other fields equal in magnitude with one sign per array. distinct by (pair)")
     res.trusted += ["the mirrored input is produced by reflecting the psi array and wall exactly; numerical paths (solve_ivp, Newton) differ in rounding only"]
-    ex = ["onsurface"]
+    ex = ["onsurface", "regions"]
     pairs = []   # (tag, kind, specA, specB)
 
     def mirror_pair(geo, options, **kw):
@@ -211,6 +246,8 @@ def run(res, tier):
     mirror_pair("lsn", {"psinorm_pf_lower": 0.96})
     mirror_pair("cdn", {"ny_inner_lower_divertor": 3, "ny_inner_upper_divertor": 4})
     mirror_pair("ldn", {})
+    # the option that rewrites Bpxy at the y-faces next to an X-point from the neighbouring cells (acts when Bp > 0: psi negated)
+    mirror_pair("lsn", {"cap_Bp_ylow_xpoint": True}, psi_sign=-1.0)
     # non-orthogonal, radial segments of different widths: the spacing weights depend on the radial index relative to the separatrix and on which
     # end of a region (lower / upper, exchanged by the reflection) is being weighted
     mirror_pair("lsn", {"orthogonal": False, "nx_core": 3, "nx_pf": 3, "nx_sol": 2}, wall=[(1.2, -0.5), (1.2, 0.5), (1.8, 0.5), (1.8, -0.5)])
